@@ -250,6 +250,26 @@ def reduce_ext(op, p, axis):
     return Poly.atom(('red', op, p.key(), axis))
 
 
+def substitute(p, f):
+    """Replace top-level atoms: f(atom) -> Poly or None (keep)."""
+    out = Poly()
+    for m, c in p.t.items():
+        term = Poly.const(c)
+        for a, k in m:
+            r = f(a)
+            base = Poly.atom(a) if r is None else r
+            if k < 0:
+                base, k = inv(base), -k
+            for _ in range(k):
+                term = term * base
+        out = out + term
+    return out
+
+
+def is_cached(a):
+    return a[0] == 'sym' and a[1].startswith('cached ')
+
+
 # ---------------------------------------------------------------------------- differentiation
 def _d_atom(t, a, node):
     if t == a:
@@ -638,6 +658,14 @@ class Interp:
         if isinstance(e, ast.BoolOp):
             vals = [self.truth(x, env, fn) for x in e.values]
             return all(vals) if isinstance(e.op, ast.And) else any(vals)
+        if isinstance(e, ast.Compare) and len(e.ops) == 1:
+            atom = self.option_compare(e, env, fn)
+            if atom is not None:
+                key, negate = atom
+                if key not in self.valuation:
+                    raise Unknown(e, f'comparison {key} of a numeric option is not enumerated')
+                self.tested.add(key)
+                return self.valuation[key] != negate
         if isinstance(e, ast.Compare) and len(e.ops) == 1 and isinstance(e.ops[0], (ast.Is, ast.IsNot, ast.Eq, ast.NotEq)):
             r = self.truth(e.left, env, fn) == self.truth(e.comparators[0], env, fn)
             return r if isinstance(e.ops[0], (ast.Is, ast.Eq)) else not r
@@ -647,6 +675,69 @@ class Interp:
         if isinstance(v, Const) and isinstance(v.v, bool):
             return v.v
         raise Unknown(e, 'branch condition is not a boolean option')
+
+    def option_name(self, e, env, fn):
+        """Name of the option if e is options['<literal>'] (through any alias) else None."""
+        if isinstance(e, ast.Subscript) and astx.const_str(e.slice) is not None:
+            try:
+                v = self.eval(e.value, env, fn)
+            except Unknown:
+                return None
+            if isinstance(v, Obj) and v.tag == 'options':
+                return astx.const_str(e.slice)
+        return None
+
+    def option_compare(self, e, env, fn):
+        """((name, op, constant), negate) for `options[name] <op> <int literal>` (either order) else None."""
+        l, r, op = e.left, e.comparators[0], type(e.ops[0])
+        swap = {ast.Lt: ast.Gt, ast.Gt: ast.Lt, ast.LtE: ast.GtE, ast.GtE: ast.LtE, ast.Eq: ast.Eq, ast.NotEq: ast.NotEq}
+        if op not in swap:
+            return None
+        if isinstance(l, ast.Constant):
+            l, r, op = r, l, swap[op]
+        if not (isinstance(r, ast.Constant) and isinstance(r.value, int) and not isinstance(r.value, bool)):
+            return None
+        nm = self.option_name(l, env, fn)
+        if nm is None or nm in self.valuation:
+            return None
+        txt = {ast.Lt: '<', ast.Gt: '>', ast.LtE: '<=', ast.GtE: '>=', ast.Eq: '==', ast.NotEq: '=='}[op]
+        return (nm, txt, r.value), op is ast.NotEq
+
+    def cached_attribute(self, v, e, fn):
+        """Value of self.<attr> when every assignment to it (outside the running method) copies an option."""
+        owner = v.data
+        cls = owner.cls.name if owner.cls is not None else None
+        if cls is None:
+            raise Unknown(e, f'attribute {e.attr}')
+        found = []
+        for qn, f in owner.module.funcs.items():
+            if not qn.startswith(cls + '.') or '<locals>' in qn:
+                continue
+            for st in astx.walk_stmts(f.node.body):
+                if isinstance(st, (ast.Assign, ast.AugAssign, ast.AnnAssign)) and \
+                        any(astx.path(t) == f'self.{e.attr}' for t in astx.assigned_targets(st)):
+                    found.append((f, st))
+        live = [(f, st) for f, st in found
+                if not (isinstance(st, ast.Assign) and isinstance(st.value, ast.Constant) and st.value.value is None)]
+        if not live or any(f is fn or not isinstance(st, ast.Assign) for f, st in live):
+            raise Unknown(e, f'attribute {e.attr}')
+        names = set()
+        for f, st in live:
+            env = {a.arg: Obj('self', f) for a in f.node.args.args[:1]}
+            for pre in astx.walk_stmts(f.node.body):   # option aliases of that method
+                if isinstance(pre, ast.Assign) and astx.path(pre.value) == 'self.options':
+                    for t in pre.targets:
+                        if isinstance(t, ast.Name):
+                            env[t.id] = Obj('options')
+            nm = self.option_name(st.value, env, f)
+            if nm is None:
+                raise Unknown(e, f'attribute {e.attr} is assigned {astx.src(st.value)} in {f.qualname}')
+            names.add((nm, f.qualname))
+        if len({n for n, _ in names}) != 1:
+            raise Unknown(e, f'attribute {e.attr} copies different options')
+        nm = next(iter(names))[0]
+        where = ', '.join(sorted(q for _, q in names))
+        return Num(Poly.atom(('sym', f"cached options[{nm!r}] (self.{e.attr}, set in {where})", 'S')), 'S')
 
     # ------------------------------------------------------------------ expressions
     def eval(self, e, env, fn):
@@ -758,6 +849,7 @@ class Interp:
                     f = self.repo.lookup(v.data.rel, c, e.attr)
                     if f is not None:
                         return Obj('boundfunc', (f, v))
+                    return self.cached_attribute(v, e, fn)
             raise Unknown(e, f'attribute {e.attr}')
         if isinstance(v, Num):
             if e.attr == 'T':
